@@ -203,6 +203,10 @@ func checkC02(p *Prog, res *Result, tier string) {
 	// ---- R4 ----
 	checkHeaderVsData(p, r, a, res)
 
+	// compaction never runs above the committed revision: the deletion record that a delayed create must see (C01-R3's
+	// tombstone guard) is still there (C09-R2)
+	checkCompactionClamp(p, r, res, "C02-R5")
+
 	// ---- R6: hand-over (C15-R1) ----
 	checkLeaderStart(p, r, res, "C02-R6")
 }
